@@ -1,4 +1,29 @@
     //@ entry
         let ghost inbox0 = self.source.inbox();
+    //@ after self.source.read_exact(&mutbuf)
+        // the header: three consecutive bytes of the stream
+        proof {
+            assert(buf@ =~= inbox0.take(3));
+            assert(self.source.inbox() =~= inbox0.skip(3));
+        }
+    //@ after letlen=
+        // with the extended length (two more bytes) where the third header byte says so
+        proof {
+            assert(buf@ =~= inbox0.take(buf@.len() as int));
+            assert(self.source.inbox() =~= inbox0.skip(buf@.len() as int));
+            if inbox0[2] == 0xff {
+                assert(buf@.len() == 5);
+                assert(pow256(0) == 1 && pow256(1) == 256);
+                assert(buf@.subrange(3, 5) =~= seq![inbox0[3], inbox0[4]]);
+                assert(len == inbox0[3] as int + 256 * (inbox0[4] as int));
+            } else {
+                assert(buf@.len() == 3 && len == inbox0[2] as int);
+            }
+        }
     //@ tail
-        proof { assert(buf@ =~= inbox0.take(buf@.len() as int)); }
+        // and the body
+        proof {
+            assert(buf@ =~= inbox0.take(buf@.len() as int));
+            assert(apdu_total(inbox0) == Some(buf@.len() as int));
+            assert(self.source.inbox() =~= inbox0.skip(buf@.len() as int));
+        }
